@@ -83,4 +83,60 @@ def lKeepAll (c : Conv) (keep : Val → Bool) (h : Heap) (id : Nat) : Option Hea
 def lRemoveAll (c : Conv) (rm : Val → Bool) (h : Heap) (id : Nat) : Option Heap :=
   lKeepAll c (fun x => !rm x) h id
 
+/-! ### predicates with memory, converters that raise
+
+`keep_all(is_keep)` asks `is_keep` once per element, front to back — which matters as soon as
+the predicate remembers what it has seen (de-duplication, "keep at most n").  And
+`to_wrapped_value` may raise on an element: the operation then stops where it is, with
+whatever it has already done to the list. -/
+
+/-- the loop of `keep_all` with a predicate that carries state `σ` from call to call -/
+def keepLoopS {σ : Type} (f : σ → Val → σ × Option Val) : Nat → σ → List Val → Nat → Nat → List Val × Nat × σ
+  | 0, s, data, _, wr => (data, wr, s)
+  | fuel+1, s, data, r, wr =>
+    match data[r]? with
+    | none => (data, wr, s)
+    | some x =>
+      match f s x with
+      | (s', some y) => keepLoopS f fuel s' (data.set wr y) (r+1) (wr+1)
+      | (s', none) => keepLoopS f fuel s' data (r+1) wr
+
+/-- the plain-list reading: one call per element, in order, threading the state -/
+def filterMapS {σ : Type} (f : σ → Val → σ × Option Val) : σ → List Val → List Val × σ
+  | s, [] => ([], s)
+  | s, x :: xs =>
+    match f s x with
+    | (s', some y) => let r := filterMapS f s' xs; (y :: r.1, r.2)
+    | (s', none) => filterMapS f s' xs
+
+def keepAllListS {σ : Type} (f : σ → Val → σ × Option Val) (s : σ) (xs : List Val) : List Val :=
+  let r := keepLoopS f xs.length s xs 0 0
+  r.1.take r.2.1
+
+def keepFnS {σ : Type} (c : Conv) (keep : σ → Val → σ × Bool) : σ → Val → σ × Option Val :=
+  fun s x => let r := keep s (c.wrap x); (r.1, if r.2 then some (c.unwrap (c.wrap x)) else none)
+
+/-- number of leading elements `to_wrapped_value` accepts -/
+def goodPrefix (bad : Val → Bool) : List Val → Nat
+  | [] => 0
+  | x :: xs => if bad x then 0 else goodPrefix bad xs + 1
+
+/-- `view.keep_all(is_keep)` when the converter raises on the elements `bad`: the loop runs over
+the elements in front of the first such element, then the exception leaves — the kept elements
+written so far stay where they were written, nothing is popped.  `(list afterwards, raised?)` -/
+def keepAllX {σ : Type} (c : Conv) (bad : Val → Bool) (keep : σ → Val → σ × Bool) (s : σ) (xs : List Val) : List Val × Bool :=
+  let k := goodPrefix bad xs
+  if k = xs.length then (keepAllListS (keepFnS c keep) s xs, false)
+  else ((keepLoopS (keepFnS c keep) k s xs 0 0).1, true)
+
+/-- `next(it)` on the view's iterator: the list iterator has already advanced when the
+converter raises -/
+def iterNextX (c : Conv) (bad : Val → Bool) (xs : List Val) (pos : Nat) : Option (Nat × Option Val) :=
+  (xs[pos]?).map fun x => (pos + 1, if bad x then none else some (c.wrap x))
+
+/-- `view.pop(i)`: the element is gone when the converter raises on it -/
+def lPopX (c : Conv) (bad : Val → Bool) (h : Heap) (id : Nat) (i : Int) : Option (Heap × Option Val) :=
+  (listOf h id).bind fun xs => (listDel xs i).map fun r =>
+    (hput h id (.list r.2), if bad r.1 then none else some (c.wrap r.1))
+
 end Treepath
